@@ -479,10 +479,19 @@ Definition ok_v (c : list string * exp_v) : bool :=
   | Err n _, XVE n' => Nat.eqb n n'
   | _, _ => false
   end.
+Definition ok_e (mode : match_mode) (c : list string * exp_m) : bool :=
+  match parse_engine pyp mode (fst c), snd c with
+  | Ok e, XM r v t => (list_eqb rule_eqb (e_rules e) r && list_eqb pair_eqb (e_vars e) v && list_eqb pair_eqb (e_tr e) t
+                       && match e_mode e, mode with FirstMatch, FirstMatch | MostSpecific, MostSpecific => true | _, _ => false end)%bool
+  | Err n _, XME n' => Nat.eqb n n'
+  | _, _ => false
+  end.
 Fixpoint failing {A} (ok : A -> bool) (i : nat) (l : list A) : list nat :=
   match l with [] => [] | c :: r => if ok c then failing ok (S i) r else i :: failing ok (S i) r end.
 Eval vm_compute in failing ok_m 0 cases_m.
 Eval vm_compute in failing ok_v 0 cases_v.
+Eval vm_compute in failing (ok_e FirstMatch) 0 cases_e1.
+Eval vm_compute in failing (ok_e MostSpecific) 0 cases_e2.
 '''
 
 
@@ -536,29 +545,32 @@ def model_check(cases, results, table, name='C17', par=4):
     chunks = [idx[o:o + CH] for o in range(0, len(idx), CH)]
     jobs = []
     for k, chunk in enumerate(chunks):
-        cm, cv, im, iv = [], [], [], []
+        rows = {'m': [], 'v': [], 'e1': [], 'e2': []}
+        ixs = {'m': [], 'v': [], 'e1': [], 'e2': []}
         cands = set()
         for i in chunk:
             kind, lines = cases[i]
             cands |= expr_candidates(lines)
-            row = f"([{'; '.join(cs(l) for l in lines)}], {coq_exp(kind, results[i])})"
-            (cm if kind == 'm' else cv).append(row)
-            (im if kind == 'm' else iv).append(i)
+            rows[kind].append(f"([{'; '.join(cs(l) for l in lines)}], {coq_exp('v' if kind == 'v' else 'm', results[i])})")
+            ixs[kind].append(i)
+        cm, cv = rows['m'], rows['v']
         valid = sorted(c for c in cands if table.get(c) is True)
         body = ('Definition valid : list string := [' + '; '.join(cs(c) for c in valid) + '].\n'
                 'Definition cases_m : list (list string * exp_m) := [\n' + ';\n'.join(cm) + '\n].\n'
-                'Definition cases_v : list (list string * exp_v) := [\n' + ';\n'.join(cv) + '\n].\n' + TAIL)
-        jobs.append((f'{name}_{k}', body, im, iv))
+                'Definition cases_v : list (list string * exp_v) := [\n' + ';\n'.join(cv) + '\n].\n'
+                'Definition cases_e1 : list (list string * exp_m) := [\n' + ';\n'.join(rows['e1']) + '\n].\n'
+                'Definition cases_e2 : list (list string * exp_m) := [\n' + ';\n'.join(rows['e2']) + '\n].\n' + TAIL)
+        jobs.append((f'{name}_{k}', body, [ixs['m'], ixs['v'], ixs['e1'], ixs['e2']]))
     bad = []
 
     def one(job):
-        nm, body, im, iv = job
+        nm, body, ixl = job
         rc, out, err = run_cases(nm, HEADER, body)
         ms = re.findall(r'=\s*\[(.*?)\]\s*:\s*list nat', out, re.S)
-        if rc != 0 or len(ms) != 2:
+        if rc != 0 or len(ms) != 4:
             return None, (out + err)[-1500:]
         b = []
-        for m, ix in zip(ms, (im, iv)):
+        for m, ix in zip(ms, ixl):
             b += [ix[int(x)] for x in m.replace('%nat', '').replace('\n', ' ').split(';') if x.strip()]
         return b, ''
     from concurrent.futures import ThreadPoolExecutor
@@ -698,6 +710,82 @@ def check_load_seq(texts, only=None):
                 return {'observed': steps, 'step': k,
                         'why': f'step {k + 1}: the file has a parse error not reported before in this process, the loaders returned {st["values"]} and nothing reached the user'}
             shown.add(st['err'])
+    return None
+
+
+# ---- report memory: operation sequences, implementation vs the Coq state machine ---------------------------------
+MEM_TEXTS = [['[A]', 'match: x', 'category: c'], ['[A]', 'category: c'], ['[A]', 'match: x', 'colour: r'], ['junk', '[A]', 'match: x', 'tags: t'],
+             ['', '[A]', 'category: c'], ['[A]', 'match: )(', 'tags: t'], ['v = 1', '[B]', 'match: x', 'tags: t'], ['[A]', 'match: x', 'priority: z']]
+
+
+def gen_ops(rnd, n):
+    ops = []
+    for _ in range(n):
+        if rnd.random() < 0.12:
+            ops.append({'op': 'clear'})
+        else:
+            ops.append({'op': 'load', 'path': rnd.choice([0, 0, 1]), 'text': '\n'.join(rnd.choice(MEM_TEXTS)),
+                        'loader': rnd.choice(['rules', 'transforms', 'tag_rules'])})
+    return ops
+
+
+def ops_of_steps(texts):
+    ops = []
+    order = ['transforms', 'rules', 'tag_rules']
+    for k, t in enumerate(texts):
+        for l in order[k % 3:] + order[:k % 3]:
+            ops.append({'op': 'load', 'path': 0, 'text': '\n'.join(t), 'loader': l})
+    return ops
+
+
+MEM_HEADER = '''From Coq Require Import String Ascii List Bool NArith Arith.
+From Tally Require Import Lib.Str C17.Model.
+Import ListNotations.
+Open Scope string_scope.
+Definition sbytes (l : list N) : string := fold_right (fun n s => String (Ascii.ascii_of_N n) s) EmptyString l.
+Fixpoint bl_eqb (a b : list bool) : bool :=
+  match a, b with [], [] => true | x :: r, y :: s => (Bool.eqb x y && bl_eqb r s)%bool | _, _ => false end.
+Definition L (p : nat) (o : option string) : call nat string := Load p o.
+Definition C : call nat string := ClearCache.
+Definition ok_s (c : list (call nat string) * list bool) : bool :=
+  bl_eqb (run_calls nat string Nat.eqb String.eqb [] (fst c)) (snd c).
+Fixpoint failing (i : nat) (l : list (list (call nat string) * list bool)) : list nat :=
+  match l with [] => [] | c :: r => if ok_s c then failing (S i) r else i :: failing (S i) r end.
+'''
+
+
+def model_check_mem(obs_list, name='C17_mem'):
+    """obs_list: per sequence the implementation's per-operation observations. Returns failing sequence indices or None."""
+    rows = []
+    for obs in obs_list:
+        calls, flags = [], []
+        for o in obs:
+            if o['op'] == 'clear':
+                calls.append('C')
+                flags.append('false')
+            else:
+                calls.append(f"L {o['path']} " + ('None' if o['err'] is None else f"(Some {cs(o['err'])})"))
+                flags.append('true' if (o['said'] or o['exc']) else 'false')
+        rows.append(f"([{'; '.join(calls)}], [{'; '.join(flags)}])")
+    body = 'Definition seqs := [\n' + ';\n'.join(rows) + '\n].\nEval vm_compute in failing 0 seqs.\n'
+    rc, out, err = run_cases(name, MEM_HEADER, body)
+    m = re.search(r'=\s*\[(.*?)\]\s*:\s*list nat', out, re.S)
+    if rc != 0 or not m:
+        return None, (out + err)[-1200:]
+    return [int(x) for x in m.group(1).replace('%nat', '').replace('\n', ' ').split(';') if x.strip()], ''
+
+
+def check_ops(ops):
+    """Direct law on one operation sequence: an error of a path not shown since the last clear reaches the user."""
+    obs = run_impl(IMPL, {'load_ops': [{'ops': ops, 'dir': os.path.join(WORKDIR, 'loadops')}]})['load_ops'][0]
+    shown = set()
+    for k, o in enumerate(obs):
+        if o['op'] == 'clear':
+            shown = set()
+        elif o['err'] is not None:
+            if (o['path'], o['err']) not in shown and not o['said'] and not o['exc']:
+                return {'observed': obs, 'step': k, 'why': f'operation {k + 1}: a load error not shown since the last clear_engine_cache() produced no message'}
+            shown.add((o['path'], o['err']))
     return None
 
 
@@ -948,9 +1036,10 @@ def main(tier):
         'merchant_utils.load_merchant_rules (CSV reader reached by the fall-through) is an uninterpreted function csv_rules in the model',
         'error KIND is model-internal (theorem statements); the correspondence compares error class + line number, never message texts',
         'dict-valued results (variables, fields) are compared in insertion order against the model, as dicts by the direct oracles',
-        'the model reports a load error on every call; the code shows each distinct (path, message) once per process: the harness clears that '
-        'memory before single calls and checks sequences of different errors on one path separately',
-        'the match mode is not a parameter of the model: the harness checks that parse_merchants(text, most_specific) reads exactly what the default mode reads']
+        'report memory (_reported_load_errors) is modelled as a state machine over abstract paths and messages (run_calls); the message TEXT of an '
+        'error is its identity and comes from the implementation; operation sequences are compared call by call inside Coq',
+        'the engine loop (current_rule, _add_rule appends, engine carries its match mode) is modelled (parse_engine) and proved equal to the grouped '
+        'model; it is run inside Coq against parse_merchants(text, mode) for both modes']
     res = run.proof_step(COQ_FILES, extra_trusted=[
         'harness/c17.py + harness/impl_c17.py (generators, correspondence, direct oracles)',
         'C17/Model.v is a hand model (no translator): tied to /repo only by the correspondence stream'])
@@ -1119,6 +1208,39 @@ def main(tier):
                 report('loadseq', dict(check_load_seq(tx, only) or f, kind='counterexample', check='loadseq', file_kind='m', texts=tx, only=only,
                                        lines=tx[-1], expected='each new load error of the path reaches the user',
                                        obligation='c17_load_error_is_reported', shrunk_from=len(texts)), sig)
+    # operation sequences (several paths, the three loaders, clear_engine_cache in between): direct law + kept for the model
+    rnd_ops = random.Random(run.seed + 31)
+    mem_ops = [ops_of_steps(q) for q in SEQ_CORPUS] + \
+              [[{'op': 'load', 'path': 0, 'text': '[A]\ncategory: c', 'loader': 'rules'}, {'op': 'clear'},
+                {'op': 'load', 'path': 0, 'text': '[A]\ncategory: c', 'loader': 'transforms'},
+                {'op': 'load', 'path': 1, 'text': '[A]\ncategory: c', 'loader': 'tag_rules'},
+                {'op': 'load', 'path': 1, 'text': '[A]\nmatch: x\ncategory: c', 'loader': 'rules'}]] + \
+              [gen_ops(rnd_ops, 14) for _ in range(20 if tier == 'quick' else 300)]
+    mem_obs = run_impl(IMPL, {'load_ops': [{'ops': o, 'dir': os.path.join(WORKDIR, 'loadops')} for o in mem_ops]}, timeout=3000)['load_ops']
+    for ops, obs in zip(mem_ops, mem_obs):
+        shown = set()
+        for k, o in enumerate(obs):
+            if o['op'] == 'clear':
+                shown = set()
+            elif o['err'] is not None:
+                if (o['path'], o['err']) not in shown and not o['said'] and not o['exc']:
+                    sig = 'C17/load-error-not-reported-after-an-earlier-report'
+                    if sig not in seen_sig:
+                        seen_sig.add(sig)
+                        sq = list(ops[:k + 1])
+                        changed = True
+                        while changed and len(sq) > 1:
+                            changed = False
+                            for j in range(len(sq) - 1):
+                                cand = sq[:j] + sq[j + 1:]
+                                if check_ops(cand):
+                                    sq, changed = cand, True
+                                    break
+                        report('loadops', dict(check_ops(sq) or {}, kind='counterexample', check='loadops', file_kind='m', ops=sq,
+                                               lines=sq[-1].get('text', '').split('\n'), expected='each error not yet shown reaches the user',
+                                               obligation='c17_new_load_error_reaches_user'), sig)
+                    break
+                shown.add((o['path'], o['err']))
     # ---- command level ---------------------------------------------------------------------------
     rejected_m = [c for c, r in zip(cases, results) if c['kind'] == 'm' and c['role'] == 'corrupt' and r.get('ok') is False]
     rejected_v = [c for c, r in zip(cases, results) if c['kind'] == 'v' and c['role'] == 'corrupt' and r.get('ok') is False]
@@ -1161,7 +1283,25 @@ def main(tier):
     # ---- the model, inside Coq, on the same files ---------------------------------------------------
     model_idx = []
     if res['ok']:
-        bad, model_idx, err = model_check(pairs_, results, table)
+        n_eng = 400 if tier == 'quick' else 4000
+        eng = [(c, b) for c, b in zip(mcases, ms) if 'ok' in b and 'ok' in results[c['id']]][:n_eng]
+        pairs2 = pairs_ + [('e1', c['lines']) for c, b in eng] + [('e2', c['lines']) for c, b in eng]
+        results2 = results + [results[c['id']] for c, b in eng] + [b for c, b in eng]
+        bad, model_idx, err = model_check(pairs2, results2, table)
+        if bad:
+            be = [i for i in bad if i >= len(cases)]
+            bad = [i for i in bad if i < len(cases)]
+            if be:
+                c = eng[(be[0] - len(cases)) % len(eng)][0]
+                broken.append({'kind': 'broken-correspondence', 'obligation': 'model_vs_impl(C17.Model.parse_engine, parse_merchants(text, mode))',
+                               'detail': {'file_kind': 'm', 'lines': c['lines'], 'mode': 'first_match' if be[0] - len(cases) < len(eng) else 'most_specific',
+                                          'n_disagreements': len(be)}})
+        mem_bad, mem_err = model_check_mem(mem_obs)
+        if mem_bad is None:
+            broken.append({'kind': 'broken-correspondence', 'obligation': 'model_vs_impl(C17.Model.run_calls, report memory)', 'detail': mem_err})
+        elif mem_bad:
+            broken.append({'kind': 'broken-correspondence', 'obligation': 'model_vs_impl(C17.Model.run_calls, report memory)',
+                           'detail': {'ops': mem_ops[mem_bad[0]], 'observed': mem_obs[mem_bad[0]], 'n_disagreements': len(mem_bad)}})
         if bad is None:
             broken.append({'kind': 'broken-correspondence', 'obligation': 'model_vs_impl(C17.Model.parse_merchants/parse_views)',
                            'detail': 'cases.v did not evaluate: ' + err})
@@ -1216,7 +1356,8 @@ def main(tier):
                                                                             'other_exceptions': [e for e, v in table.items() if isinstance(v, str)]},
         'discarded': {'not_compared_with_model (impl raised a foreign exception or oracle unavailable)': len(cases) - len(model_idx),
                       'expression_pool_misclassified': pool_bad},
-        'api_load_cases': n_load, 'match_mode_cases': n_mode, 'load_sequences': n_seq, 'cli_runs': n_clirun + 1, 'broken': broken})
+        'api_load_cases': n_load, 'match_mode_cases': n_mode, 'load_sequences': n_seq, 'report_memory_sequences_in_coq': len(mem_ops),
+        'engine_loop_cases_in_coq_per_mode': len(eng) if res['ok'] else 0, 'cli_runs': n_clirun + 1, 'broken': broken})
     run.finish()
 
 
@@ -1252,6 +1393,8 @@ def replay(path):
         f = check_load(lines)
     elif chk == 'mode':
         f = check_mode(lines)
+    elif chk == 'loadops':
+        f = check_ops(obj['ops'])
     elif chk == 'loadseq':
         f = check_load_seq(obj['texts'], obj.get('only'))
     elif chk == 'cli':
